@@ -178,7 +178,8 @@ deriving DecidableEq
 
 structure ClassDecl where
   name : Str
-  base : Option Str
+  /-- the base classes, in the order they are written (`types.inherits`) -/
+  bases : List Str
   members : List Member
 deriving DecidableEq
 
